@@ -556,6 +556,8 @@ def trade_sequences(sc, tier):
             depth = BOUNDS[tier]["exchange_depth"]
         elif tier == "quick" and (dur != 1 or fd == 0 or via != "core"):
             depth -= 1  # the full depth for 1-second bars with a flush delay; one step less for the other combinations
+        elif tier == "thorough" and (dur in (7, 13) or via != "core"):
+            depth -= 1  # thorough: the full depth for the core aggregator with 1- and 60-second bars
         for n in range(1, depth + 1):
             for tail in itertools.product(ACTS, repeat=n - 1):
                 yield (a0,) + tail
